@@ -7,15 +7,14 @@
         ([op_bounded], [step_adm]: the next validator set of an accepted / replayed header has
         non-zero power, a replayed round is a uint32) plus "that next set has at least one key"
         (implied by non-zero power in Go, not in the model: Proofs/MirrorResumeWit.v,
-        [keys_guard_needed_in_model]); the crashes of the HISTORY are restricted to [clean_cut]
-        points (every crash point except the single one between the committed-header write and
-        the position write of a commit).
+        [keys_guard_needed_in_model]).  Crashes at EVERY point are part of the histories: also the
+        one between the committed-header write and the position write of a commit, where the
+        start-up re-evaluation commits the same block again (Proofs/MirrorResumeAhead2.v).
       - [reachable_g_K]: every such state satisfies [INV] (cinv, auth_state, sinv, hinv), [tinv]
         and the store invariant [SI] of its stores.
-      - [startup_never_fails_partial], [startup_never_fails_any_cut]: from every such state a
-        clean restart comes up, and so does the restart after a crash at EVERY cut of every
-        admissible operation (at the one cut that is not clean only totality is proved).
-      - [no_regression_partial]: the state after such a restart / crash has lost no committed
+      - [startup_never_fails]: from every such state a clean restart comes up, and so does the
+        restart after a crash at EVERY cut of every admissible operation; the result is reachable.
+      - [no_regression]: the state after such a restart / crash has lost no committed
         header and its stored position is not behind the position stored before ([sadv]).
     The former guard "no offered signature collection has an empty signature list" is gone: the
     kernel now skips such entries ([signed_entries]), as the repaired Go code does. *)
@@ -24,8 +23,8 @@ From GV Require Import Base.Ints Gen.Math Gen.Kernel Model.Mirror
   Proofs.Thresholds Proofs.MirrorAuth Proofs.MirrorNoop Proofs.MirrorChain Proofs.MirrorCert
   Proofs.MirrorTotal Proofs.MirrorRestart Proofs.MirrorLog
   Proofs.MirrorResumeWit Proofs.MirrorResumeLoad Proofs.MirrorResumeInv Proofs.MirrorResumeStart
-  Proofs.MirrorResumeAhead Proofs.MirrorResumeOps Proofs.MirrorResumeOps2 Proofs.MirrorResumeOps3 Proofs.MirrorResumeOps4
-  Proofs.MirrorResumeOps5.
+  Proofs.MirrorResumeAhead Proofs.MirrorResumeRT Proofs.MirrorResumeOps Proofs.MirrorResumeOps2 Proofs.MirrorResumeOps3 Proofs.MirrorResumeOps4
+  Proofs.MirrorResumeOps5 Proofs.MirrorResumeAhead2.
 Import ListNotations.
 Local Open Scope N_scope.
 
@@ -48,7 +47,7 @@ Definition clean_cut (s : kstate) (o : op) (k : nat) : Prop :=
 Definition xwf (s : kstate) (x : xop) (res : N) : Prop :=
   match x with
   | XOp o => wf_op o res
-  | XCrash k o => wf_op o res /\ clean_cut s o k
+  | XCrash k o => wf_op o res
   | XRestart => True
   end.
 
@@ -94,10 +93,39 @@ Proof.
   intros Hih (Hok&Hpow&Hkeys). pose proof (tinv_init ih ivs Hpow) as HT.
   split; [|exact HT]. split; [apply INV_init; assumption|]. split; [exact (proj2 HT)|].
   split; [reflexivity|]. split; [repeat split; intros t p []|].
-  split; [split; intros H; contradiction|]. split; [intros p [[]|[]]|].
+  split; [split; intros H; contradiction|].
+  split; [split; [intros p [[]|[]]|split; apply yview_fresh; reflexivity]|].
   exists ih, 0, 0, 0. unfold stores_of, init_state. cbn.
   split; [reflexivity|]. split; [left; repeat split|].
   split; [intros h x cp []|]. split; [intros h x cp []|]. split; [intros h r e E; discriminate|intros x []].
+Qed.
+
+(** * Every crash point of an operation *)
+
+(** the stores a crash after [k] writes leaves behind *)
+Definition crash_stores (s s1 : kstate) (k : nat) : stores :=
+  fold_left apply_wr (firstn k (skipn (List.length (st_log s)) (st_log s1))) (stores_of s).
+
+(** for EVERY k there are stores [stc] satisfying [SI], lying between the stores before and after
+    the uninterrupted operation, on which start-up returns exactly what it returns on the crash
+    stores: the crash stores themselves at a clean cut, the stores of the committing state at
+    the cut between the committed-header write and the position write *)
+Lemma crash_point ih ivs s o s1 r k :
+  1 <= ih -> vwf ivs -> K ih ivs s -> tinv s -> wf_op o r -> step s o = Ok (s1, r) ->
+  exists stc, SI ih ivs stc /\ sadv (stores_of s) stc /\ sadv stc (stores_of s1) /\
+              (clean_cut s o k -> stc = crash_stores s s1 k) /\
+              forall vals log, restart ih ivs (crash_stores s s1 k) vals log = restart ih ivs stc vals log.
+Proof.
+  intros Hih Hivs HK HT Hw Hs. destruct (K_step _ _ _ _ _ _ HK HT Hw Hs) as (_&_&(ws&L&S&P)).
+  assert (Hskip : skipn (List.length (st_log s)) (st_log s1) = ws)
+    by (rewrite L, skipn_app, skipn_all, Nat.sub_diag; reflexivity).
+  unfold crash_stores, clean_cut. rewrite Hs, Hskip. destruct (P k) as [Pc Pa].
+  destruct (ends_hdr (firstn k ws)) eqn:E.
+  - destruct (Pa eq_refl) as (m&p&Km&Hcc&A1&A2&Est). exists (stores_of m).
+    split; [exact (proj2 (proj2 (proj2 (proj2 (proj2 (proj2 Km))))))|]. split; [exact A1|]. split; [exact A2|].
+    split; [discriminate|]. intros vals log. rewrite Est. apply restart_ahead_same; assumption.
+  - destruct (Pc eq_refl) as (Q1&Q2&Q3). exists (fold_left apply_wr (firstn k ws) (stores_of s)).
+    split; [exact Q1|]. split; [exact Q2|]. split; [exact Q3|]. split; [reflexivity|]. intros; reflexivity.
 Qed.
 
 (** * Every step of [xstep] *)
@@ -110,17 +138,13 @@ Proof.
   destruct x as [o|k o|]; cbn [xstep xwf] in *.
   - destruct (K_step _ _ _ _ _ _ HK HT Hw Hx) as (K1&T1&P1).
     split; [exact K1|]. split; [exact T1|eapply pref_ends; exact P1].
-  - destruct Hw as (Hw&Hcut). unfold clean_cut in Hcut.
-    destruct (step s o) as [[s1 r1]|] eqn:Hs; cbn [bind fst snd] in Hx; [|discriminate].
+  - destruct (step s o) as [[s1 r1]|] eqn:Hs; cbn [bind fst snd] in Hx; [|discriminate].
     assert (Er : r1 = res).
     { destruct (restart _ _ _ _ _); cbn [bind] in Hx; [inversion Hx; reflexivity|discriminate]. }
-    subst r1. destruct (K_step _ _ _ _ _ _ HK HT Hw Hs) as (_&_&(ws&L&S&P)).
-    assert (Hskip : skipn (List.length (st_log s)) (st_log s1) = ws)
-      by (rewrite L, skipn_app, skipn_all, Nat.sub_diag; reflexivity).
-    rewrite Hskip in *. destruct (proj1 (P k) Hcut) as (Q1&Q2&_).
-    rewrite Hi1, Hi2 in Hx.
-    destruct (restart_from ih ivs (fold_left apply_wr (firstn k ws) (stores_of s)) (st_vals s)
-                (st_log s ++ firstn k ws) Hih Hivs Q1) as (s2&E2&K2&T2&A2).
+    subst r1. destruct (crash_point ih ivs s o s1 res k Hih Hivs HK HT Hw Hs) as (stc&Q1&Q2&_&_&Er).
+    fold (crash_stores s s1 k) in Hx. rewrite Hi1, Hi2, Er in Hx.
+    destruct (restart_from ih ivs stc (st_vals s)
+                (st_log s ++ firstn k (skipn (List.length (st_log s)) (st_log s1))) Hih Hivs Q1) as (s2&E2&K2&T2&A2).
     rewrite E2 in Hx. cbn [bind] in Hx. inversion Hx; subst s'.
     split; [exact K2|]. split; [exact T2|eapply sadv_trans; eassumption].
   - rewrite Hi1, Hi2 in Hx.
@@ -130,7 +154,7 @@ Proof.
     split; [exact K2|]. split; [exact T2|exact A2].
 Qed.
 
-(** (3) the invariants hold again after every [xstep] *)
+(** (3) the invariants hold again after every [xstep] - at every crash point *)
 Theorem reachable_g_K ih ivs s :
   1 <= ih -> vwf ivs -> reachable_g ih ivs s -> K ih ivs s /\ tinv s.
 Proof.
@@ -146,58 +170,36 @@ Proof.
   split; [exact HI|]. split; [exact HT|exact HS].
 Qed.
 
-(** (1), partial: start-up never fails *)
-Theorem startup_never_fails_partial ih ivs s :
+(** (1) start-up never fails: clean restart, and restart after a crash at EVERY point of every
+    admissible operation; the state it returns is reachable again *)
+Theorem startup_never_fails ih ivs s :
   1 <= ih -> vwf ivs -> reachable_g ih ivs s ->
-  (exists s', xstep s XRestart = Ok (s', 0)) /\
-  (forall o k s1 r, step s o = Ok (s1, r) -> wf_op o r -> clean_cut s o k ->
-     exists s', xstep s (XCrash k o) = Ok (s', r)).
+  (exists s', xstep s XRestart = Ok (s', 0) /\ reachable_g ih ivs s') /\
+  (forall o k s1 r, step s o = Ok (s1, r) -> wf_op o r ->
+     exists s', xstep s (XCrash k o) = Ok (s', r) /\ reachable_g ih ivs s').
 Proof.
   intros Hih Hivs Hr. destruct (reachable_g_K ih ivs s Hih Hivs Hr) as [HK HT].
   pose proof (proj1 (proj1 HK)) as Hc. destruct Hc as (Hi1&Hi2&_).
   split.
-  - cbn [xstep]. rewrite Hi1, Hi2.
-    destruct (restart_from ih ivs (stores_of s) (st_vals s) (st_log s) Hih Hivs
-                (proj2 (proj2 (proj2 (proj2 (proj2 (proj2 HK))))))) as (s2&E2&_).
-    rewrite E2. cbn [bind]. eexists; reflexivity.
-  - intros o k s1 r Hs Hw Hcut. unfold clean_cut in Hcut. cbn [xstep]. rewrite Hs in *. cbn [bind fst snd].
-    destruct (K_step _ _ _ _ _ _ HK HT Hw Hs) as (_&_&(ws&L&S&P)).
-    assert (Hskip : skipn (List.length (st_log s)) (st_log s1) = ws)
-      by (rewrite L, skipn_app, skipn_all, Nat.sub_diag; reflexivity).
-    rewrite Hskip in *. destruct (proj1 (P k) Hcut) as (Q1&_&_). rewrite Hi1, Hi2.
-    destruct (restart_from ih ivs (fold_left apply_wr (firstn k ws) (stores_of s)) (st_vals s)
-                (st_log s ++ firstn k ws) Hih Hivs Q1) as (s2&E2&_).
-    rewrite E2. cbn [bind]. eexists; reflexivity.
+  - assert (E : exists s', xstep s XRestart = Ok (s', 0)).
+    { cbn [xstep]. rewrite Hi1, Hi2.
+      destruct (restart_from ih ivs (stores_of s) (st_vals s) (st_log s) Hih Hivs
+                  (proj2 (proj2 (proj2 (proj2 (proj2 (proj2 HK))))))) as (s2&E2&_).
+      rewrite E2. cbn [bind]. eexists; reflexivity. }
+    destruct E as (s'&E). exists s'. split; [exact E|]. eapply rg_step; [exact Hr| |exact E]. exact I.
+  - intros o k s1 r Hs Hw.
+    assert (E : exists s', xstep s (XCrash k o) = Ok (s', r)).
+    { cbn [xstep]. rewrite Hs. cbn [bind fst snd].
+      destruct (crash_point ih ivs s o s1 r k Hih Hivs HK HT Hw Hs) as (stc&Q1&_&_&_&Er).
+      fold (crash_stores s s1 k). rewrite Hi1, Hi2, Er.
+      destruct (restart_from ih ivs stc (st_vals s)
+                  (st_log s ++ firstn k (skipn (List.length (st_log s)) (st_log s1))) Hih Hivs Q1) as (s2&E2&_).
+      rewrite E2. cbn [bind]. eexists; reflexivity. }
+    destruct E as (s'&E). exists s'. split; [exact E|]. eapply rg_step; [exact Hr| |exact E]. exact Hw.
 Qed.
 
-(** (1), every crash point: start-up comes up after a crash at ANY point of any admissible
-    operation of such a state - also between the committed-header write and the position write
-    (there only totality is proved: the state after that restart is not shown to satisfy [INV],
-    which is why [reachable_g] does not continue from it) *)
-Theorem startup_never_fails_any_cut ih ivs s :
-  1 <= ih -> vwf ivs -> reachable_g ih ivs s ->
-  forall o k s1 r, step s o = Ok (s1, r) -> wf_op o r ->
-     exists s', xstep s (XCrash k o) = Ok (s', r).
-Proof.
-  intros Hih Hivs Hr o k s1 r Hs Hw. destruct (reachable_g_K ih ivs s Hih Hivs Hr) as [HK HT].
-  pose proof (proj1 (proj1 HK)) as Hc. destruct Hc as (Hi1&Hi2&_).
-  cbn [xstep]. rewrite Hs. cbn [bind fst snd].
-  destruct (K_step _ _ _ _ _ _ HK HT Hw Hs) as (_&_&(ws&L&S&P)).
-  assert (Hskip : skipn (List.length (st_log s)) (st_log s1) = ws)
-    by (rewrite L, skipn_app, skipn_all, Nat.sub_diag; reflexivity).
-  rewrite Hskip, Hi1, Hi2. destruct (P k) as [Pc Pa].
-  destruct (ends_hdr (firstn k ws)) eqn:E.
-  - destruct (restart_ahead_total ih ivs (fold_left apply_wr (firstn k ws) (stores_of s)) (st_vals s)
-                (st_log s ++ firstn k ws) Hih Hivs (Pa eq_refl)) as (s2&E2).
-    rewrite E2. cbn [bind]. eexists; reflexivity.
-  - destruct (Pc eq_refl) as (Q1&_&_).
-    destruct (restart_from ih ivs (fold_left apply_wr (firstn k ws) (stores_of s)) (st_vals s)
-                (st_log s ++ firstn k ws) Hih Hivs Q1) as (s2&E2&_).
-    rewrite E2. cbn [bind]. eexists; reflexivity.
-Qed.
-
-(** (2), partial: nothing committed is lost and the stored position does not regress *)
-Theorem no_regression_partial ih ivs s x s' res :
+(** (2) nothing committed is lost and the stored position does not regress *)
+Theorem no_regression ih ivs s x s' res :
   1 <= ih -> vwf ivs -> reachable_g ih ivs s -> xwf s x res -> xstep s x = Ok (s', res) ->
   (forall h hc, In (h, hc) (st_hdrs s) -> In (h, hc) (st_hdrs s')) /\
   n_vh (st_nhr s) <= n_vh (st_nhr s') /\ n_ch (st_nhr s) <= n_ch (st_nhr s') /\
@@ -209,19 +211,15 @@ Proof.
   destruct (K_xstep ih ivs s x s' res Hih Hivs HK HT Hw Hx) as (_&_&A). exact A.
 Qed.
 
-(** the crash stores are between the stores before and the stores the uninterrupted operation
-    leaves: in particular the stored voting height after the crash is at most the one the
-    uninterrupted operation reaches (start-up may then move on by its own re-evaluation) *)
+(** what start-up sees after a crash: stores satisfying [SI] between the stores before and the
+    stores after the uninterrupted operation *)
 Theorem crash_stores_between ih ivs s o k s1 r :
   1 <= ih -> vwf ivs -> reachable_g ih ivs s ->
-  step s o = Ok (s1, r) -> wf_op o r -> clean_cut s o k ->
-  let st := fold_left apply_wr (firstn k (skipn (List.length (st_log s)) (st_log s1))) (stores_of s) in
-  SI ih ivs st /\ sadv (stores_of s) st /\ sadv st (stores_of s1).
+  step s o = Ok (s1, r) -> wf_op o r ->
+  exists stc, SI ih ivs stc /\ sadv (stores_of s) stc /\ sadv stc (stores_of s1) /\
+              (clean_cut s o k -> stc = crash_stores s s1 k) /\
+              forall vals log, restart ih ivs (crash_stores s s1 k) vals log = restart ih ivs stc vals log.
 Proof.
-  intros Hih Hivs Hr Hs Hw Hcut st. destruct (reachable_g_K ih ivs s Hih Hivs Hr) as [HK HT].
-  unfold clean_cut in Hcut. rewrite Hs in Hcut.
-  destruct (K_step _ _ _ _ _ _ HK HT Hw Hs) as (_&_&(ws&L&S&P)).
-  assert (Hskip : skipn (List.length (st_log s)) (st_log s1) = ws)
-    by (rewrite L, skipn_app, skipn_all, Nat.sub_diag; reflexivity).
-  unfold st. rewrite Hskip in *. exact (proj1 (P k) Hcut).
+  intros Hih Hivs Hr Hs Hw. destruct (reachable_g_K ih ivs s Hih Hivs Hr) as [HK HT].
+  exact (crash_point ih ivs s o s1 r k Hih Hivs HK HT Hw Hs).
 Qed.
